@@ -686,3 +686,18 @@ func (e *Engine) staticOnly(c *FuncContract) bool {
 	}
 	return false
 }
+
+// rootBudgets: per-root solver budget in seconds (contract flag `solver_budget N`). A budget only lengthens the time a
+// solver may take before the obligation is reported as undecided; it never turns a time-out into a proof.
+var rootBudgets = map[string]int{}
+
+func (e *Engine) noteRootBudget() {
+	if e.rootContract == nil {
+		return
+	}
+	if v := e.rootContract.Flags["solver_budget"]; v != "" {
+		if n, err := strconv.Atoi(strings.TrimSpace(v)); err == nil && n > 0 && n <= 120 {
+			rootBudgets[e.rootKey] = n
+		}
+	}
+}
